@@ -40,6 +40,11 @@ pub const CANCELLED: u32 = 2;
 pub enum Kind {
     /// canonical `u8` (no lower/lift)
     B,
+    /// canonical, wider than one byte (no lower/lift): `u16`, `u32`, `u64`, `(u32, u32)`
+    H,
+    W,
+    D,
+    T,
     /// lifted, no lists (8 bytes: chan u32, id u32)
     R,
     /// lifted with an owned list (16 bytes: ptr, len of the bytes "c:id")
@@ -50,11 +55,44 @@ impl Kind {
     pub fn size(self) -> usize {
         match self {
             Kind::B => 1,
+            Kind::H => 2,
+            Kind::W => 4,
+            Kind::D => 8,
+            Kind::T => 8,
             Kind::R => 8,
             Kind::S => 16,
         }
     }
+    pub fn align(self) -> usize {
+        match self {
+            Kind::B => 1,
+            Kind::H => 2,
+            Kind::W | Kind::T | Kind::R => 4,
+            Kind::D | Kind::S => 8,
+        }
+    }
+    /// the payload goes through `lower` / `lift` (a slab)
+    pub fn lowers(self) -> bool {
+        matches!(self, Kind::R | Kind::S)
+    }
 }
+
+/// canonical values of the wide kinds: every byte of the element depends on the id, so that a read at a
+/// wrong byte offset does not decode to an id
+pub fn w_value(id: u32) -> u32 {
+    (id & 0xffff) | ((!id & 0xffff) << 16)
+}
+pub fn w_id(v: u32) -> Option<u32> {
+    if (v >> 16) == (!v & 0xffff) { Some(v & 0xffff) } else { None }
+}
+pub fn d_value(id: u32) -> u64 {
+    w_value(id) as u64 | (((w_value(id) ^ 0x5a5a_5a5a) as u64) << 32)
+}
+pub fn d_id(v: u64) -> Option<u32> {
+    let lo = v as u32;
+    if (v >> 32) as u32 == lo ^ 0x5a5a_5a5a { w_id(lo) } else { None }
+}
+pub const T_TAG: u32 = 0xC0DE_0000;
 
 #[derive(Clone, Copy, PartialEq, Debug)]
 pub enum St {
@@ -191,6 +229,14 @@ unsafe fn read_item(kind: Kind, c: usize, p: usize) -> Option<u32> {
     unsafe {
         match kind {
             Kind::B => Some(*(p as *const u8) as u32),
+            Kind::H => Some((p as *const u16).read_unaligned() as u32),
+            Kind::W => w_id((p as *const u32).read_unaligned()),
+            Kind::D => d_id((p as *const u64).read_unaligned()),
+            Kind::T => {
+                let tag = (p as *const u32).read_unaligned();
+                let id = ((p + 4) as *const u32).read_unaligned();
+                if tag == T_TAG + c as u32 { Some(id) } else { None }
+            }
             Kind::R => {
                 let ch = (p as *const u32).read_unaligned();
                 let id = ((p + 4) as *const u32).read_unaligned();
@@ -210,6 +256,13 @@ unsafe fn write_item(kind: Kind, c: usize, p: usize, id: u32) {
     unsafe {
         match kind {
             Kind::B => *(p as *mut u8) = id as u8,
+            Kind::H => (p as *mut u16).write_unaligned(id as u16),
+            Kind::W => (p as *mut u32).write_unaligned(w_value(id)),
+            Kind::D => (p as *mut u64).write_unaligned(d_value(id)),
+            Kind::T => {
+                (p as *mut u32).write_unaligned(T_TAG + c as u32);
+                ((p + 4) as *mut u32).write_unaligned(id);
+            }
             Kind::R => {
                 (p as *mut u32).write_unaligned(c as u32);
                 ((p + 4) as *mut u32).write_unaligned(id);
@@ -318,7 +371,7 @@ fn trap_code(c: Option<usize>, what: &str) -> u32 {
 
 /// a read into a lifted payload goes through a slab the runtime allocated: watch its release
 fn watch_read_slab(x: &HChan, write: bool, ptr: usize, n: usize) {
-    if !write && x.kind != Kind::B && n > 0 {
+    if !write && x.kind.lowers() && n > 0 {
         crate::payload::watch_slab(ptr, x.c);
     }
 }
@@ -380,7 +433,18 @@ pub fn copy(h: u32, write: bool, fut: bool, ptr: usize, n: usize) -> u32 {
     if fut {
         ev(&format!("{name}{h}:{code}"));
     } else {
-        ev(&format!("{name}{h}:{n}:{code}"));
+        // where the guest's pointer points, in BYTES from the base of the live heap block it lies in (the
+        // vector's storage / the slab): the specification wants `elements already transferred x element size`
+        let (off, flag) = match crate::alloc_check::containing(ptr, 4096) {
+            Some((base, _)) => (ptr - base, ""),
+            None if n == 0 => (0, ""),
+            None => (0, "!copy-pointer-outside-live-blocks"),
+        };
+        let mis = match by_handle(h).or_else(|| CHANS.with(|v| v.borrow().iter().position(|x| x.handle == h && h != 0))) {
+            Some(c) if n > 0 && ptr % with_chan(c, |x| x.kind.align()) != 0 => "!copy-pointer-misaligned",
+            _ => "",
+        };
+        ev(&format!("{name}{h}:{n}:{code}:{off}{flag}{mis}"));
     }
     code
 }
